@@ -1,8 +1,10 @@
 #!/bin/bash
 # tools/try_mutant.sh <patch.diff> <property id> [extra check args]  — apply a patch to /repo, run the check, undo.
+# The evidence file of the property is saved and restored: evidence committed must come from the clean tree.
 set -u
 patch="$1"; pid="$2"; shift 2
 git -C /repo apply "$(realpath "$patch")" || { echo "patch does not apply"; exit 3; }
-trap 'git -C /repo checkout -- . ; cd /verif && /venv/bin/python tools/translate.py >/dev/null' EXIT
+cp /verif/evidence/$pid.json /verif/.work/evidence.$pid.bak 2>/dev/null
+trap 'git -C /repo checkout -- . ; cd /verif && /venv/bin/python tools/translate.py >/dev/null; cp /verif/.work/evidence.$pid.bak /verif/evidence/$pid.json 2>/dev/null' EXIT
 cd /verif && ./check "$pid" "$@"
 echo "exit=$?"
